@@ -428,7 +428,7 @@ func TestDeterministicCompile(t *testing.T) {
 	rec.SetRule(rule)
 	rec.Assume("'every run and process' is sampled: K recompilations, 6 parallel, 2 fresh processes; a nondeterminism needing more tries can be missed (a 3-entry map iteration is missed with probability < 1e-8 at K=12)")
 	g := genCase([]string{"bn254", "bn254", "bls12-377", "bls12-381", "bw6-761", "bls24-315", "f47", "f47", "koalabear"})
-	rec.Check(t, "determinism", ev.N(120, 3000), func(rt *rapid.T) {
+	rec.Check(t, "determinism", ev.N(300, 3000), func(rt *rapid.T) {
 		c := g.Draw(rt, "case")
 		rec.Begin("determinism", c)
 		rec.Report(rt, "determinism", c, run(c))
